@@ -99,7 +99,14 @@ type icmpM struct {
 	hasCode   bool
 }
 
+// a fixed corpus case: sets and packets given instead of generated
+type forced struct {
+	sets [][]member
+	pkts []packet
+}
+
 type grule struct {
+	forced *forced
 	action                                 string // allow deny pass log ""
 	ipver                                  int    // 0,4,6
 	proto, notProto                        int    // -1 none
@@ -580,6 +587,17 @@ func main() {
 	r := &rng{s: *seed*0x2545F4914F6CDD1D + 0xC08}
 	enc := json.NewEncoder(os.Stdout)
 	stats := map[string]int{}
+	// corpus first: the minimal three-positive-block rule (scratch bit re-use), both flavours
+	for _, nft := range []bool{false, true} {
+		g, nsets := corpusThreeBlocks()
+		c, err := buildCase(r, g, 4, nft, markCfgs[0], false, false, false, false, nsets)
+		if err != nil {
+			fmt.Fprintf(os.Stderr, "C08 driver: %v\n", err)
+			os.Exit(3)
+		}
+		c.Tags = append(c.Tags, "corpus:three-positive-blocks")
+		_ = enc.Encode(c)
+	}
 	for i := 0; i < *n; i++ {
 		ver := 4
 		if r.chance(35) {
@@ -829,8 +847,15 @@ func buildCase(r *rng, g *grule, ver int, nft bool, mc markCfg, flow, untracked,
 		}
 		return m
 	}
+	var pert []packet
 	var pkts []packet
 	addP := func(p packet) { p.mark = genMark(); pkts = append(pkts, p) }
+	if g.forced != nil {
+		sets = g.forced.sets
+		pkts = g.forced.pkts
+		pert = nil
+		goto emit
+	}
 	addP(base)
 	// the same packet with both scratch bits set on entry (stale bits must not leak into the verdict)
 	{
@@ -838,7 +863,6 @@ func buildCase(r *rng, g *grule, ver int, nft bool, mc markCfg, flow, untracked,
 		p.mark = (mc.s0 | mc.s1 | (uint32(r.next()) & mc.endpoint)) &^ own
 		pkts = append(pkts, p)
 	}
-	var pert []packet
 	for _, x := range srcC {
 		p := base
 		p.src = x
@@ -905,6 +929,7 @@ func buildCase(r *rng, g *grule, ver int, nft bool, mc markCfg, flow, untracked,
 	}
 
 	// ---- emit
+emit:
 	fl, dk := "Iptables", "DenyDrop"
 	if nft {
 		fl = "Nft"
@@ -940,6 +965,28 @@ func buildCase(r *rng, g *grule, ver int, nft bool, mc markCfg, flow, untracked,
 	sort.Strings(tags)
 	return &line{Coq: coq, NT: len(out) >= 2 && len(pkts) >= 10, Key: fmt.Sprintf("%s|%d|%s|%s", fl, ver, cfgCoq, g.coq()),
 		Sample: map[string]any{"rule": pr.String(), "rendered": texts, "flavor": fl, "ipver": ver, "packets": len(pkts)}, Tags: tags}, nil
+}
+
+// allow, source named ports {s0,s1}, destination named ports {s2,s3}, source 10.0.0.0/8 or 11.0.0.0/8:
+// three positive match blocks.  Packet 12.0.0.1:1000 -> 10.0.0.2:80/tcp is in s0 and s2 but in neither CIDR.
+func corpusThreeBlocks() (*grule, int) {
+	g := &grule{proto: -1, notProto: -1, action: "allow"}
+	g.srcNamed = []int{0, 1}
+	g.dstNamed = []int{2, 3}
+	g.srcNets = []cidr{{false, parseIP("10.0.0.0"), 8}, {false, parseIP("11.0.0.0"), 8}}
+	bad := packet{proto: 6, src: parseIP("12.0.0.1"), dst: parseIP("10.0.0.2"), sport: 1000, dport: 80}
+	good := bad
+	good.src = parseIP("10.0.0.1")
+	good2 := good
+	good2.mark = 0x600 // stale scratch bits on entry
+	noport := good
+	noport.dport = 81
+	g.forced = &forced{
+		sets: [][]member{
+			{{parseIP("12.0.0.1"), 6, 1000}, {parseIP("10.0.0.1"), 6, 1000}}, {}, {{parseIP("10.0.0.2"), 6, 80}}, {}},
+		pkts: []packet{bad, good, good2, noport},
+	}
+	return g, 4
 }
 
 func contains(xs []int, x int) bool {
